@@ -14,7 +14,7 @@ from bctmc.tally import Tally
 
 PROPERTY = 'C09'
 RULE = ('the structured 7-10 node family of bctmc/named.py (binary and weights {1/8,1}) and all undirected graphs n<=5 and digraphs n<=4 (binary); weights {1/8,1} on 4-node graphs and 3-node digraphs; '
-        'signed {-1,-1/8,0,1/8,1} and {-1,-1e-9,0,1e-9,1} (connections weaker than common tolerances) on 4 nodes for clustering_coef_wu_sign x 3 coef types (thorough: binary n=6, weighted '
+        'signed {-1,-1/8,0,1/8,1} and {-1,-1e-9,0,1e-9,1} (connections weaker than common tolerances) on 4 nodes and {-1,0,1} on 5 nodes for clustering_coef_wu_sign x 3 coef types (thorough: binary n=6, weighted '
         'n=5 und and n=4 dir); non-trivial = graph with at least one triangle and at least one node on no triangle')
 ASSUMPTIONS = ['float64 inputs with empty diagonal; weights 1/8 and 1 (cube roots 1/2 and 1)',
                'reference: triple loops over node triples (Watts-Strogatz, Fagiolo, Onnela, Zhang-Horvath, '
@@ -28,7 +28,7 @@ FAMILIES = {
     'bin_und3': ('u', 3, BIN, 'q'), 'bin_und4': ('u', 4, BIN, 'q'), 'bin_und5': ('u', 5, BIN, 'q'),
     'bin_dir3': ('d', 3, BIN, 'q'), 'bin_dir4': ('d', 4, BIN, 'q'),
     'wt_und4': ('u', 4, WT, 'q'), 'wt_dir3': ('d', 3, WT, 'q'),
-    'sg_und4': ('s', 4, SG, 'q'), 'sg_tiny4': ('s', 4, (-1, -1e-9, 0, 1e-9, 1), 'q'), 'wt_tiny4': ('u', 4, (0, 1e-9, 1), 'q'),
+    'sg_und4': ('s', 4, SG, 'q'), 'sg_und5': ('s', 5, (-1, 0, 1), 'q'), 'sg_tiny4': ('s', 4, (-1, -1e-9, 0, 1e-9, 1), 'q'), 'wt_tiny4': ('u', 4, (0, 1e-9, 1), 'q'),
     'bin_und6': ('u', 6, BIN, 't'), 'wt_und5': ('u', 5, WT, 't'), 'wt_dir4': ('d', 4, WT, 't'),
 }
 
